@@ -12,6 +12,7 @@ pub mod deadline;
 pub mod reconnect;
 pub mod shutdown;
 pub mod health;
+pub mod web;
 
 /// Shared event recorder so that events survive a panic or hang of the run.
 #[derive(Clone, Default)]
@@ -48,6 +49,7 @@ fn run_one(lab: &str, stim: &Value, rec: &Rec) {
         "reconnect" => reconnect::run(stim, rec),
         "shutdown" => shutdown::run(stim, rec),
         "health" => health::run(stim, rec),
+        "web" => web::run(stim, rec),
         _ => { eprintln!("unknown lab {lab}"); std::process::exit(2) }
     }
 }
